@@ -74,6 +74,11 @@ def gen(ch, tier):
             seq = [ch.choice(["shift_shuffle", "false_neg_shuffle", "false_pos_shuffle", "category_shuffle", "splits_shuffle"])
                    for _ in range(ch.randint(2, 3))]
         trials.append({"flags": [ch.coin(0.5) for _ in FLAGS], "np_seed": ch.randint(0, 2**31 - 1), "sequence": seq})
+    # history dimension: the same tool object swept over magnitudes (``tool.magnitude = m`` between trials, as the
+    # repository's own benchmark does) - anything the tool keeps from an earlier magnitude must not leak into the next
+    if ch.coin(0.4):
+        for t in trials:
+            t["magnitude"] = ch.choice([0.0, 0.0, 1.0, 1.0, world.r3(ch.uniform(0.01, 0.99))])
     return {"reference": units, "magnitude": mag, "annotators": annot, "trials": trials,
             "adv_seed": ch.randint(0, 2**31 - 1), "adv_rate": ch.choice([0.1, 0.3, 0.6])}
 
@@ -95,13 +100,14 @@ def run(case):
     ref_snapshot = (ref_units, list(ref.categories), ref.bounds)
     m = case["magnitude"]
     tool = pa.CorpusShufflingTool(m, ref)
+    m_history = []
     names = case["annotators"]
     exp_names = sorted(names) if isinstance(names, list) else sorted(f"annotator_{i}" for i in range(names))
     n_ref = len(ref_units)
     stats, violations = {"trials": 0}, []
     keys = {"nontrivial": [], "flag_combos": []}
     adv = Adversary(Choices(case["adv_seed"]), case["adv_rate"])
-    rd = digest([case["reference"], m])
+    ref_digest = digest(case["reference"])
 
     def viol(kind, msg, adversarial, **sig):
         violations.append({"kind": kind, "msg": msg + (" [adversarial draws]" if adversarial else " [real draws]"),
@@ -110,12 +116,17 @@ def run(case):
     for ti, trial in enumerate(case["trials"]):
         adversarial = ti % 2 == 1
         flags = dict(zip(FLAGS, trial["flags"]))
+        if trial.get("magnitude") is not None and trial["magnitude"] != m:
+            m = trial["magnitude"]
+            tool.magnitude = m
+            stats["magnitude_changes"] = stats.get("magnitude_changes", 0) + 1
+        m_history.append(m)
         np.random.seed(trial["np_seed"])
         seam = RngSeam(injector=adv if adversarial else None, keep_log=False)
         stats["trials"] += 1
         keys["flag_combos"].append("".join("1" if f else "0" for f in trial["flags"]))
         if m > 0 and any(trial["flags"][:5]):
-            keys["nontrivial"].append(digest([rd, trial["flags"]]))
+            keys["nontrivial"].append(digest([ref_digest, m, trial["flags"]]))
         with seam:
             # ---- A. whole corpus ---------------------------------------------------------
             try:
@@ -148,7 +159,7 @@ def run(case):
                                                  f"{sorted({l for _, _, l in us} - ref_cats)} (flags {flags})", adversarial)
                         break
                     if m == 0 and us != ref_units:
-                        viol("magnitude_zero", f"magnitude 0 but annotator {a} differs from the reference (flags {flags}): "
+                        viol("magnitude_zero", f"magnitude 0 (magnitudes of this tool so far: {m_history}) but annotator {a} differs from the reference (flags {flags}): "
                                                f"{us[:3]} vs {ref_units[:3]}", adversarial)
                         break
                 if violations:
@@ -263,6 +274,12 @@ def shrink_candidates(case, violation):
             c = copy.deepcopy(case)
             c["trials"] = [case["trials"][i]] if not violation["sig"].get("adversarial") else [case["trials"][0], case["trials"][i]]
             if c["trials"] != case["trials"]:
+                yield c
+    if any(t.get("magnitude") is not None for t in case["trials"]) and len(case["trials"]) > 2:
+        for i in range(1, len(case["trials"])):
+            for j in range(i):
+                c = copy.deepcopy(case)
+                c["trials"] = [case["trials"][j], case["trials"][i]]
                 yield c
     units = case["reference"]
     if len(units) > 1:
